@@ -33,7 +33,11 @@ type LoggerWrapper struct {
 // It implements the io.Writer interface, allowing LoggerWrapper to be
 // used anywhere an io.Writer is expected.
 func (m *LoggerWrapper) Write(b []byte) (n int, err error) {
-	m.logger.Write(b)
+	if l := m.logger; l != nil {
+		l.Write(b)
+	} else {
+		defaultLogger.Write(b) // no configuration is live
+	}
 	return len(b), nil
 }
 
